@@ -123,7 +123,11 @@ func (s *netSim) abstract(m consensus.Message, from int, own bool) J {
 		return J{"k": "part", "h": mm.Height, "r": mm.Round, "bid": name}
 	case *consensus.VoteMessage:
 		v := mm.Vote
-		return J{"k": "vote", "type": int(v.Type), "h": v.Height, "r": v.Round, "bid": s.nameOf(v.Height, v.BlockID.Hash), "i": int(v.ValidatorIndex) + 1, "ok": true, "peer": peer}
+		// identity of the signer (its key); the vote is acceptable if that validator is a member of the set of the
+		// vote's height and names its position there
+		id := s.w.IDOf(v.ValidatorAddress)
+		ok := id > 0 && s.w.IndexAt(v.Height, id) == int(v.ValidatorIndex)
+		return J{"k": "vote", "type": int(v.Type), "h": v.Height, "r": v.Round, "bid": s.nameOf(v.Height, v.BlockID.Hash), "i": id, "ok": ok, "peer": peer}
 	}
 	return nil
 }
@@ -143,8 +147,10 @@ func (s *netSim) projNode(nd *netNode) J {
 		for i := 0; i < n; i++ {
 			out[i] = "none"
 			if vs != nil {
-				if v := vs.GetByIndex(uint32(i)); v != nil {
-					out[i] = s.nameOf(hh, v.BlockID.Hash)
+				if pos := s.w.IndexAt(hh, i+1); pos >= 0 && pos < vs.Size() {
+					if v := vs.GetByIndex(uint32(pos)); v != nil {
+						out[i] = s.nameOf(hh, v.BlockID.Hash)
+					}
 				}
 			}
 		}
@@ -330,6 +336,9 @@ func (s *netSim) byzAct(b int) {
 	nd := s.nodes[to]
 	rs := nd.CS.GetRoundState()
 	h := rs.Height
+	if s.w.IndexAt(h, b) < 0 {
+		return // not a validator at this height
+	}
 	// candidate block ids at this height
 	var cands []string
 	for _, n := range s.names[h] {
@@ -362,7 +371,7 @@ func (s *netSim) byzAct(b int) {
 		v := s.w.SignVoteFor(b, typ, h, r, id, time.Now())
 		s.deliver(flight{to: to, from: b, msg: &consensus.VoteMessage{Vote: v}})
 	case 3: // a proposal if it is the proposer of the target's round: two different blocks for different nodes
-		if nd.CS.VerifProposerIndex() != b-1 || rs.Proposal != nil {
+		if s.w.IDOf(rs.Validators.GetProposer().Address) != b || rs.Proposal != nil {
 			return
 		}
 		good, _ := nd.CS.VerifCreateProposalBlock()
@@ -443,10 +452,13 @@ type netCfg struct {
 	restarts   int // at most this many restarts of correct nodes in the adversarial phase (> 0: every node is gated)
 	restartPct int // probability (in 1/1000) per scheduler step
 	waitTxs    bool // default configuration: CreateEmptyBlocksInterval > 0
+	plan       map[uint64][]int64 // validator-set changes (World.Plan)
 }
 
 func newNetSim(cfg netCfg, seed int64, walDir string) (*netSim, error) {
+	os.RemoveAll(walDir) // a log left by an earlier process would be continued (and its #ENDHEIGHT markers stop the replay)
 	w := NewWorld(cfg.powers)
+	w.Plan = cfg.plan
 	s := &netSim{w: w, rng: rand.New(rand.NewSource(seed)), nodes: map[int]*netNode{}, byz: cfg.byz,
 		names: map[uint64]map[common.Hash]string{}, pnames: map[common.Hash]string{}, ids: map[string]types.BlockID{},
 		parts: map[string][]*types.Part{}, counter: map[uint64]int{}, nodeNo: map[int]int{}, byzSent: map[string]bool{},
@@ -495,9 +507,9 @@ func (s *netSim) close() {
 }
 
 func (s *netSim) header(maxH, maxR int) J {
-	pw := []int64{}
-	for _, p := range s.w.Powers {
-		pw = append(pw, p)
+	pw := [][]int64{}
+	for h := 1; h <= maxH+1; h++ {
+		pw = append(pw, s.w.PowersAt(h))
 	}
 	inv := []string{}
 	for h := 1; h <= 9; h++ {
@@ -605,7 +617,7 @@ func (s *netSim) gossipOnce() int {
 		if src == nil {
 			return
 		}
-		for i := 0; i < nv; i++ {
+		for i := 0; i < nv && i < src.Size(); i++ {
 			v := src.GetByIndex(uint32(i))
 			if v == nil {
 				continue
@@ -646,7 +658,7 @@ func (s *netSim) gossipOnce() int {
 		if srcBits == nil {
 			return
 		}
-		for i := 0; i < nv; i++ {
+		for i := 0; i < nv && i < src.Size(); i++ {
 			if !srcBits.GetIndex(i) {
 				continue
 			}
@@ -865,6 +877,13 @@ var netConfigs = map[string]netCfg{
 	"5w-byz":    {powers: []int64{3, 2, 2, 1, 1}, byz: []int{2}, maxH: 3, maxSteps: 3000, dropPct: 8, reorderPct: 35, earlyPct: 25, byzPct: 6},
 	"7eq-byz2":  {powers: []int64{1, 1, 1, 1, 1, 1, 1}, byz: []int{3, 6}, maxH: 3, maxSteps: 4000, dropPct: 6, reorderPct: 30, earlyPct: 20, byzPct: 6},
 	"3eq-nobyz": {powers: []int64{1, 1, 1}, byz: nil, maxH: 4, maxSteps: 2000, dropPct: 10, reorderPct: 40, earlyPct: 30, byzPct: 0},
+	// validator-set changes across heights (the application's result of block k is in force from height k+2): power
+	// raised, a correct validator removed and re-added with another power, the Byzantine validator's power changed
+	"4eq-change": {powers: []int64{1, 1, 1, 1}, byz: []int{4}, maxH: 7, maxSteps: 4000, dropPct: 6, reorderPct: 30, earlyPct: 20, byzPct: 5,
+		plan: map[uint64][]int64{1: {3, 1, 1, 1}, 2: {3, 1, 0, 1}, 3: {3, 1, 2, 1}, 4: {3, 2, 2, 2}}},
+	"5w-change-restart": {powers: []int64{3, 2, 2, 1, 1}, byz: []int{2}, maxH: 7, maxSteps: 4000, dropPct: 6, reorderPct: 30, earlyPct: 20, byzPct: 5,
+		restarts: 6, restartPct: 5,
+		plan: map[uint64][]int64{1: {3, 2, 2, 1, 0}, 2: {2, 2, 2, 1, 0}, 3: {2, 2, 2, 1, 3}, 5: {3, 2, 2, 1, 1}}},
 	// the default configuration (WaitForTxs with CreateEmptyBlocksInterval): round 1 waits for the NewRound timeout
 	"4eq-wait":   {powers: []int64{1, 1, 1, 1}, byz: []int{4}, maxH: 4, maxSteps: 2500, dropPct: 8, reorderPct: 35, earlyPct: 25, byzPct: 6, waitTxs: true},
 	"4w-wait-restart": {powers: []int64{3, 2, 2, 2}, byz: []int{3}, maxH: 5, maxSteps: 3000, dropPct: 6, reorderPct: 30, earlyPct: 20, byzPct: 5, restarts: 6, restartPct: 6, waitTxs: true},
